@@ -201,19 +201,32 @@ def c09_cases():
     return out
 
 def c10_cases():
+    """Topologies are enumerated by the generator (constant mask per harness): a symbolic mask makes
+    the container shapes symbolic and did not finish symbolic execution in 20 minutes. Undirected:
+    4 potential edges (3 pairs + a self-loop) = 16 graphs; directed: 7 (6 ordered pairs + a
+    self-loop) = 128 graphs. thorough = all of them; quick = all undirected + a spread of directed."""
     out = []
-    # topology symbolic (mask = -1): one query over all 16 undirected / 128 directed topologies
-    out.append(("c10_und_sym_single", "c10_undirected(-1, false)", "quick", ["three singleton components", "one component", "two components"], "undirected single-edge graphs on 3 nodes, all 16 topologies (3 pairs + a self-loop) symbolic: connected_components, number_of_, node_connected_component, WrongMethod guards"))
-    out.append(("c10_und_sym_multi", "c10_undirected(-1, true)", "thorough", ["one component"], "as above on the multi-edge kind"))
-    out.append(("c10_weak_sym", "c10_directed(-1, false, 0)", "quick", ["two components"], "directed graphs on 3 nodes, all 128 topologies (6 ordered pairs + a self-loop) symbolic: weakly_connected_components + WrongMethod guards"))
-    out.append(("c10_strong_sym", "c10_directed(-1, false, 1)", "quick", ["one component", "two components"], "directed graphs on 3 nodes, all 128 topologies symbolic: strongly_connected_components"))
+    for mask in range(16):
+        # measured: undirected graphs with >= 2 non-loop edges run into the 25-minute cap (get_neighbor_nodes'
+        # itertools sort/dedup pipeline under BFS); they are kept in the 'full' tier
+        nonloop = bin(mask & 0b0111).count("1")
+        out.append(("c10_und_m%02d" % mask, "c10_undirected(%d, false)" % mask, ("quick" if nonloop <= 1 else "full"), [],
+                    "undirected single-edge graph on nodes [2,0,1], topology mask %s: connected_components / number_of_ / node_connected_component vs closure oracle; WrongMethod guards" % format(mask, "04b")))
+    for mask in (0b0011, 0b1111, 0b0101):
+        out.append(("c10_undmulti_m%02d" % mask, "c10_undirected(%d, true)" % mask, "full", [], "same on the multi-edge kind, mask %s" % format(mask, "04b")))
+    quick_d = {0, 1, 3, 7, 9, 18, 21, 27, 36, 42, 63, 64, 73, 85, 100, 127}
+    for mask in range(128):
+        for (w, nm) in ((0, "weak"), (1, "strong")):
+            tier = "quick" if mask in quick_d else "thorough"
+            out.append(("c10_%s_m%03d" % (nm, mask), "c10_directed(%d, false, %d)" % (mask, w), tier, [],
+                        "directed graph on nodes [2,0,1], topology mask %s: %s_connected_components vs closure oracle%s" % (format(mask, "07b"), "weakly" if w == 0 else "strongly", "; WrongMethod guards" if w == 0 else "")))
     for d in (True, False):
-        for k in (1, 2, 3):
-            out.append(("c10_bfsparts_%s_k%d_sym" % ("d" if d else "u", k), "c10_bfs_partitions(%s, -1, %d)" % (B[d], k), "quick" if k == 2 else "thorough", ["reached end"],
-                        "%s graphs on 3 nodes, all topologies symbolic: bfs_equal_size_partitions(%d)" % ("directed" if d else "undirected", k)))
-    # a few constant topologies (cheap cross-check of the symbolic encoding)
-    for mask in (0b0000011, 0b0111111, 0b1000101):
-        out.append(("c10_strong_m%d" % mask, "c10_directed(%d, false, 1)" % mask, "thorough", [], "directed topology mask %d: strongly_connected_components" % mask))
+        masks = (0, 1, 7, 21, 63, 100) if d else (0, 1, 3, 7, 12)
+        for mask in masks:
+            for k in (1, 2, 3):
+                tier = "quick" if (k == 2 and mask in (7, 1)) or (k == 3 and mask == 0) else "thorough"
+                out.append(("c10_bfsparts_%s_m%03d_k%d" % ("d" if d else "u", mask, k), "c10_bfs_partitions(%s, %d, %d)" % (B[d], mask, k), tier, ["reached end"],
+                            "%s graph, topology mask %d: bfs_equal_size_partitions(%d): k parts, every node once, size bound" % ("directed" if d else "undirected", mask, k)))
     return out
 
 def c15_cases():
@@ -232,7 +245,7 @@ def c15_cases():
         for s in (0, 1, 3):
             if not c02_admissible(d, m, s):
                 continue
-            tier = "quick" if (s in (1, 3) and kn in ("dm", "ds")) or (s == 0 and kn == "us") else "thorough"
+            tier = "quick" if (s in (1, 3) and kn == "dm") else ("full" if kn == "ds" else "thorough")
             out.append(("c15_rev_%s_s%d" % (kn, s), "c15_reverse_reweight(%s, %s, %d)" % (B[d], B[m], s), tier, ["reached end"],
                         "kind=%s shape #%d: reverse (twice = identity), set_all_edge_weights(w) for arbitrary f64 w; WrongMethod guards" % (kn, s)))
         for s in (2, 3, 0):
@@ -241,6 +254,109 @@ def c15_cases():
             tier = "quick" if (s == 2 and m) or (s == 0 and kn == "ds") else "thorough"
             out.append(("c15_collapse_%s_s%d" % (kn, s), "c15_collapse(%s, %s, %d)" % (B[d], B[m], s), tier, ["reached end"] + (["a group was collapsed"] if (m and s in (2,)) or (kn == "um" and s == 3) else []),
                         "kind=%s shape #%d: to_single_edges (integer weights 1..8, exact sums); WrongMethod guard" % (kn, s)))
+    return out
+
+def c04_cases():
+    out = []
+    # directed masks over [(2,0),(0,1),(1,2),(0,2),(1,0),(2,1),(1,1)]; undirected over [(2,0),(0,1),(1,2),(1,1)]
+    dmasks = [0b0000111, 0b0001011, 0b0111111, 0b1000011, 0b0000001, 0b0010101]
+    umasks = [0b0111, 0b0011, 0b1111, 0b0101]
+    for (d, masks, nm) in ((True, dmasks, "d"), (False, umasks, "u")):
+        for mask in masks:
+            for src in (0, 1, 2):
+                for wtd in (True, False):
+                    q = (mask in (0b0000111, 0b0001011) and d and src == 0 and wtd) or (mask == 0b0111 and not d and src == 1 and wtd) or (mask == 0b0001011 and d and src == 0 and not wtd)
+                    tier = "quick" if q else "thorough"
+                    wn = "w" if wtd else "h"
+                    out.append(("c04_all_%s_m%03d_s%d_%s" % (nm, mask, src, wn), "c04_all_paths(%s, %d, %d, %s)" % (B[d], mask, src, B[wtd]), tier, ["reached end"],
+                                "%s 3-node topology mask %s, source position %d, %s: dijkstra all-paths vs Bellman-Ford + path-count oracle; integer weights 1..8 symbolic" % ("directed" if d else "undirected", bin(mask), src, "weighted" if wtd else "hop count")))
+    return out
+
+def c08_cases():
+    out = []
+    dmasks = [0b0000111, 0b0001011, 0b0111111]
+    umasks = [0b0111, 0b0011]
+    for (d, masks, nm) in ((True, dmasks, "d"), (False, umasks, "u")):
+        for mask in masks:
+            for src in (0, 1, 2):
+                q = (mask == 0b0001011 and src == 0) or (mask == 0b0111 and src == 1 and not d)
+                out.append(("c08_var_%s_m%03d_s%d" % (nm, mask, src), "c08_variants(%s, %d, %d, true)" % (B[d], mask, src), "quick" if q else "thorough", ["reached end"],
+                            "%s mask %s source %d: dijkstra_basic == dijkstra distances; with_paths=false; first_only returns one shortest path; option dispatch" % ("directed" if d else "undirected", bin(mask), src)))
+                out.append(("c08_tc_%s_m%03d_s%d" % (nm, mask, src), "c08_target_cutoff(%s, %d, %d, true)" % (B[d], mask, src), "quick" if q else "thorough", ["reached end"],
+                            "%s mask %s source %d: symbolic target and symbolic cutoff (every integer and half-integer threshold up to 20) vs the unrestricted answer" % ("directed" if d else "undirected", bin(mask), src)))
+    return out
+
+def c11_cases():
+    out = []
+    # undirected masks over [(2,0),(0,1),(1,2),(1,1)]; subset 0 = all nodes
+    for mask in range(16):
+        for subset in (0, 1, 2, 3, 4):
+            if subset in (2, 3) and mask not in (0b0111, 0b0011, 0b1111):
+                continue
+            q = (mask, subset) in {(0b0111, 0), (0b0011, 0), (0b1111, 0), (0b0001, 0), (0b0111, 1), (0b0011, 4), (0b0000, 0), (0b1011, 0)}
+            out.append(("c11_und_m%02d_x%d" % (mask, subset), "c11_undirected(%d, %d)" % (mask, subset), "quick" if q else "thorough", ["reached end"],
+                        "undirected topology mask %s, node subset #%d: triangles, clustering, generalized_degree, average_clustering, transitivity, square_clustering vs brute-force oracles" % (format(mask, "04b"), subset)))
+    for mask in (0b0000111, 0b0001011, 0b0111111, 0b1000111, 0b0010101, 0b0000001, 0b0011011, 0b0000000):
+        for subset in (0, 1, 2):
+            q = (mask, subset) in {(0b0000111, 0), (0b0111111, 0), (0b0001011, 1), (0b0011011, 2)}
+            out.append(("c11_dir_m%03d_x%d" % (mask, subset), "c11_directed(%d, %d)" % (mask, subset), "quick" if q else "thorough", ["reached end"],
+                        "directed topology mask %s, node subset #%d: clustering vs Fagiolo's formula; WrongMethod for the undirected-only functions" % (format(mask, "07b"), subset)))
+    out.append(("c11_multi_refused_u", "c11_multi_refused(false)", "quick", ["reached end"], "undirected multi-edge graph: every cluster function returns WrongMethod"))
+    out.append(("c11_multi_refused_d", "c11_multi_refused(true)", "thorough", ["reached end"], "directed multi-edge graph: clustering returns WrongMethod"))
+    return out
+
+def c05_cases():
+    out = []
+    for dag in range(8):
+        if dag & 4 and not dag & 1:
+            continue
+        out.append(("c05_accumulate_dag%d" % dag, "c05_accumulate(%d)" % dag, "quick", ["reached end"],
+                    "accumulate_betweenness on the shortest-path DAG #%d over 3 nodes (source 0), arbitrary finite previous betweenness vector" % dag))
+    dq = {0b0000111, 0b0001011, 0b0111111, 0b0000011}
+    for mask in (0b0000111, 0b0001011, 0b0111111, 0b0000011, 0b0010101, 0b0000000, 0b1000111, 0b0011011):
+        out.append(("c05_pub_d_m%03d" % mask, "c05_public_unweighted(true, %d)" % mask, "quick" if mask in dq else "thorough", ["normalized", "raw"],
+                    "directed topology mask %s: bfs stage (S, P, sigma) and betweenness_centrality(hop counts) vs the definition; normalized symbolic" % format(mask, "07b")))
+    for mask in range(16):
+        out.append(("c05_pub_u_m%02d" % mask, "c05_public_unweighted(false, %d)" % mask, "quick" if mask in (0b0011, 0b0111, 0b1011) else "thorough", ["normalized", "raw"],
+                    "undirected topology mask %s: bfs stage and betweenness_centrality(hop counts) vs the definition; normalized symbolic" % format(mask, "04b")))
+    return out
+
+def c06_cases():
+    out = []
+    dq = {0b0000111, 0b0001011, 0b0000011}
+    for mask in (0b0000111, 0b0001011, 0b0111111, 0b0000011, 0b0010101, 0b0000000, 0b1000111):
+        out.append(("c06_pub_d_m%03d" % mask, "c06_public_unweighted(true, %d)" % mask, "quick" if mask in dq else "thorough", ["wf_improved", "plain"],
+                    "directed topology mask %s: BFS distances and closeness_centrality(hop counts, incoming distance) vs the definition; wf_improved symbolic" % format(mask, "07b")))
+    for mask in range(16):
+        out.append(("c06_pub_u_m%02d" % mask, "c06_public_unweighted(false, %d)" % mask, "quick" if mask in (0b0011, 0b0111, 0b0001) else "thorough", ["wf_improved", "plain"],
+                    "undirected topology mask %s: BFS distances and closeness_centrality(hop counts) vs the definition; wf_improved symbolic" % format(mask, "04b")))
+    return out
+
+C20_GROUPS = ["cluster", "clustersub", "components", "degrees", "centrality", "paths", "partitions", "eigen"]
+def c20_admissible(d, m, l, s):
+    if s in (3, 6) and not l:
+        return False
+    if s == 4 and not m:
+        return False
+    return True
+
+def c20_cases():
+    out = []
+    quick = {(0, 0), (5, 0), (1, 2), (2, 2), (5, 2), (3, 1), (6, 1), (5, 5), (4, 7), (0, 3), (1, 3), (2, 4), (0, 6), (5, 6), (0, 5), (3, 0), (5, 4)}
+    for d in (True, False):
+        for m in (False, True):
+            for l in (False, True):
+                kn = ("d" if d else "u") + ("m" if m else "s") + ("l" if l else "n")
+                for s in range(7):
+                    if not c20_admissible(d, m, l, s):
+                        continue
+                    for gi, gname in enumerate(C20_GROUPS):
+                        # quick: each (shape, group) cell of the quick list once, on a rotating kind
+                        pick = (s, gi) in quick and ((kn == "usl" and gi in (0, 1, 2, 6)) or (kn == "dsl" and gi in (3, 4, 5)) or (kn == "uml" and gi == 7 and s == 4) or (kn == "dsn" and s in (0, 1) and gi in (2, 3)))
+                        heavy = gi == 5 and s in (6,)
+                        tier = "quick" if pick else ("full" if heavy else "thorough")
+                        out.append(("c20_%s_s%d_%s" % (kn, s, gname), "c20_harness!(c20_%s_s%d_%s, %s, %s, %s, %d, %d);" % (kn, s, gname, B[d], B[m], B[l], s, gi), tier, ["reached end"],
+                                    "kind=%s degenerate shape #%d: %s functions return a value or an Error (no panic / overflow)" % (kn, s, gname)))
     return out
 
 def emit():
@@ -264,6 +380,26 @@ def emit():
     for (name, call, tier, covers, what) in c15_cases():
         lines.append("crate::vharness! { unwind = 9; fn %s() { %s } }\n" % (name, call))
     open(os.path.join(VERIF, "harness", "gen_convert_ac.rs"), "w").write("".join(lines))
+    lines = ["// GENERATED by /verif/vlib/gen.py -- do not edit by hand.\n"]
+    for (name, call, tier, covers, what) in c04_cases() + c08_cases():
+        lines.append("crate::vharness! { unwind = 8; fn %s() { %s } }\n" % (name, call))
+    open(os.path.join(VERIF, "harness", "gen_dijkstra_ac.rs"), "w").write("".join(lines))
+    lines = ["// GENERATED by /verif/vlib/gen.py -- do not edit by hand.\n"]
+    for (name, call, tier, covers, what) in c11_cases():
+        lines.append("crate::vharness! { unwind = 9; fn %s() { %s } }\n" % (name, call))
+    open(os.path.join(VERIF, "harness", "gen_cluster_ac.rs"), "w").write("".join(lines))
+    lines = ["// GENERATED by /verif/vlib/gen.py -- do not edit by hand.\n"]
+    for (name, call, tier, covers, what) in c05_cases():
+        lines.append("crate::vharness! { unwind = 8; fn %s() { %s } }\n" % (name, call))
+    open(os.path.join(VERIF, "harness", "gen_betweenness_ac.rs"), "w").write("".join(lines))
+    lines = ["// GENERATED by /verif/vlib/gen.py -- do not edit by hand.\n"]
+    for (name, call, tier, covers, what) in c06_cases():
+        lines.append("crate::vharness! { unwind = 8; fn %s() { %s } }\n" % (name, call))
+    open(os.path.join(VERIF, "harness", "gen_closeness_ac.rs"), "w").write("".join(lines))
+    lines = ["// GENERATED by /verif/vlib/gen.py -- do not edit by hand.\n"]
+    for (name, call, tier, covers, what) in c20_cases():
+        lines.append(call + "\n")
+    open(os.path.join(VERIF, "harness", "gen_totality_ac.rs"), "w").write("".join(lines))
 
 if __name__ == "__main__":
     emit()
